@@ -71,7 +71,7 @@ package backend
 //@   ensures [pending] pending == rev && (rev == 0 || rev < 0x8000000000000000)
 
 //@ func (*backend).update(ctx, oldRevision, key, value, lease) (revision, err)
-//@   props C01 C02 C03 C04 C09
+//@   props C01 C02 C03 C04 C09 C20
 // "any non-empty value a client writes is returned byte for byte": a version record whose value is the
 // deletion marker reads as a deletion (get, scan), so a client value must never be stored as one
 //@   ensures@C03 [a-client-value-is-never-stored-as-the-deletion-marker] commits == old(commits)+1 && err == nil ==> !bytes_eq(value, tombStoneBytes)
@@ -158,7 +158,7 @@ package backend
 //@   ensures [limited-list-is-a-prefix-of-the-snapshot] err == nil && r.Limit > 0 ==> forall(i, 0 <= i && i < rec_n && emitted_at(i, R) && 0 <= cnt(i) && cnt(i) < len(resp.Kvs), resp.Kvs[cnt(i)] != nil && same_slice(resp.Kvs[cnt(i)].Key, uk_of(i)) && resp.Kvs[cnt(i)].Value == rec_val[i] && resp.Kvs[cnt(i)].Revision == rec_rev[i])
 
 //@ func (*backend).create(ctx, key, value) (revision, err)
-//@   props C04 C06 C17 C09
+//@   props C04 C06 C17 C09 C20
 //@   requires wf_backend(b) && pending == 0 && !batch_open
 //@   requires [events-dir] events_dir_of(b.config.Prefix)
 //@   ensures [ttl-only-for-event-records] last_ttl != old(last_ttl) && last_ttl != 0 ==> has_prefix(key, events_dir)
@@ -171,7 +171,7 @@ package backend
 //@   ensures [unknown-outcome-is-returned] commits != old(commits) && err_is(last_err, storage.ErrUncertainResult) ==> err == last_err && !err_is(last_err, storage.ErrCASFailed) && last_err != nil
 
 //@ func (*backend).delete(ctx, oldRevision, key) (newRevision, old, err)
-//@   props C01 C02 C04 C09
+//@   props C01 C02 C04 C09 C20
 //@   requires wf_backend(b) && pending == 0 && !batch_open
 //@   modifies ghost.pending ghost.max_issued ghost.bw_n ghost.bw_kind ghost.bw_key ghost.bw_val ghost.bw_old ghost.bw_ttl ghost.commits ghost.last_batch ghost.last_err ghost.batch_open ghost.floor ghost.floor_set ghost.iteration
 //@   ensures [dealt-is-returned] pending == newRevision
@@ -187,7 +187,7 @@ package backend
 //@   ensures [closed] !batch_open
 
 //@ func (*backend).Create(ctx, put) (resp, err)
-//@   props C04 C06 C09
+//@   props C04 C06 C09 C20
 //@   ensures@C06 [a-successful-create-announces-the-stored-version] err == nil && resp != nil && resp.Succeeded ==> commits != old(commits) && last_err == nil && asref(ev, "*common.WatchEvent").Valid && asref(ev, "*common.WatchEvent").Key == put.Key && asref(ev, "*common.WatchEvent").Value == put.Value && asref(ev, "*common.WatchEvent").Revision == resp.Header.Revision && is_enc(bw_key[last_batch][1], put.Key, resp.Header.Revision) && bw_val[last_batch][1] == put.Value && asref(ev, "*common.WatchEvent").ResourceVerb == proto.Event_CREATE
 //@   ensures@C06 [a-failed-create-announces-nothing] err != nil || (resp != nil && !resp.Succeeded) ==> ev == old(ev) || !asref(ev, "*common.WatchEvent").Valid
 //@   ensures [unknown-outcome-is-reported-as-an-error] commits != old(commits) && err_is(last_err, storage.ErrUncertainResult) ==> resp == nil && err != nil
@@ -197,7 +197,7 @@ package backend
 //@   ensures [every-dealt-revision-reported] pending == 0
 
 //@ func (*backend).Update(ctx, r) (resp, err)
-//@   props C04 C06 C09
+//@   props C04 C06 C09 C20
 // C06: one event per write attempt that was dealt a revision; it is valid exactly when the write
 // succeeded, and then it carries the key, value and revision of the version record just committed
 //@   ensures@C06 [a-successful-update-announces-the-stored-version] err == nil && resp != nil && resp.Succeeded ==> commits != old(commits) && last_err == nil && asref(ev, "*common.WatchEvent").Valid && asref(ev, "*common.WatchEvent").Key == r.Kv.Key && asref(ev, "*common.WatchEvent").Value == r.Kv.Value && asref(ev, "*common.WatchEvent").Revision == resp.Header.Revision && is_enc(bw_key[last_batch][1], r.Kv.Key, resp.Header.Revision) && bw_val[last_batch][1] == r.Kv.Value && asref(ev, "*common.WatchEvent").ResourceVerb == ite(r.Kv.Revision == 0, proto.Event_CREATE, proto.Event_PUT)
@@ -209,7 +209,7 @@ package backend
 //@   ensures [every-dealt-revision-reported] pending == 0
 
 //@ func (*backend).Delete(ctx, r) (resp, err)
-//@   props C04 C06 C09
+//@   props C04 C06 C09 C20
 //@   ensures@C06 [a-successful-delete-announces-the-stored-deletion] err == nil && resp != nil && resp.Succeeded ==> commits != old(commits) && last_err == nil && asref(ev, "*common.WatchEvent").Valid && asref(ev, "*common.WatchEvent").Key == r.Key && asref(ev, "*common.WatchEvent").Revision == resp.Header.Revision && asref(ev, "*common.WatchEvent").ResourceVerb == proto.Event_DELETE && is_enc(bw_key[last_batch][1], r.Key, resp.Header.Revision) && bw_val[last_batch][1] == tombStoneBytes
 //@   ensures@C06 [a-failed-delete-announces-nothing] err != nil || (resp != nil && !resp.Succeeded) ==> ev == old(ev) || !asref(ev, "*common.WatchEvent").Valid
 //@   ensures [unknown-outcome-is-reported-as-an-error] commits != old(commits) && err_is(last_err, storage.ErrUncertainResult) ==> resp == nil && err != nil
@@ -256,6 +256,17 @@ package backend
 //@   loop 0 invariant [borders] forall(j, 0 <= j && j < len(borders), true)
 // the borders are consumed as whole (start, end) pairs, in order
 //@   loop 0 step_lemma [advances-by-whole-pairs] i == head(i)+2
+
+// the compaction borders: one (start, end) pair for the prefix and one for every skipped prefix, each
+// an index-record key (revision 0) -- no configured prefix is dropped or added; the pairs are then
+// sorted so that consecutive pairs of the sorted list are the ranges between skipped prefixes
+//@ func (*backend).getCompactBorders() (result)
+//@   props C07
+//@   nosafety
+//@   requires wf_backend(b)
+//@   modifies inferred:(*backend).getCompactBorders
+//@   ensures [a-border-pair-for-the-prefix-and-for-every-skipped-prefix] len(result) == 2*(1+len(b.config.SkippedPrefixes))
+//@   loop 0 invariant [two-borders-per-prefix-so-far] len(compactBorders) == 2*(rangeindex+1) && len(keyPrefixes) == 1+len(b.config.SkippedPrefixes) && -1 <= rangeindex && rangeindex < len(keyPrefixes)
 
 //@ func (*backend).Compact(ctx, revision) (resp, err)
 //@   props C08 C09 C07
